@@ -312,6 +312,9 @@ func C15(p *core.Program, r *core.Report) {
 	// the "is the report-to endpoint ours" test walks the MuxAgent's children: the list must be read under its lock
 	checkMuxChildrenGuarded(p, r)
 
+	// "delivered" is reported when AgentManager.Deliver returned nil: that result must stand for a hand-over
+	checkHandOverConfirmed(p, r)
+
 	// "forwarded" is reported exactly when one sender's Send returned nil (forward's sent flag, checked above), so the
 	// report is truthful only if no Send implementation returns nil after one of its own steps failed.
 	nSend := 0
